@@ -3639,14 +3639,17 @@ class __implementations__:
         _xp = numpy.concatenate([[xp[0]], xp])
         _fp = numpy.concatenate([[fp[0]], fp])
         _gp = numpy.concatenate([[0.], numpy.diff(fp) / numpy.diff(xp), [0.]])
-        if left is not None:
-            _fp[0] = left
         if right is not None:
             _fp[-1] = right
         def take_index(a):
             a = _Constant(a)
             return _Wrapper(evaluable.Take, _WithoutPoints(a), index, shape=index.shape, dtype=a.dtype)
-        return take_index(_fp) + take_index(_gp) * (x - take_index(_xp))
+        retval = take_index(_fp) + take_index(_gp) * (x - take_index(_xp))
+        if left is not None:
+            # NOTE: index 0 corresponds to x <= xp[0], whereas the left value
+            # applies to x < xp[0] only.
+            retval += (left - fp[0]) * numpy.less(x, xp[0]).astype(float)
+        return retval
 
     @implements(numpy.choose)
     def choose(a, choices):
